@@ -92,7 +92,7 @@ def BinaryOp.storeFree : BinaryOp → Bool
   | .mem | .getTag | .hasTag => false
   | _ => true
 
-/-- side condition on an extension function admitted in the fragment: the values it returns survive
+/-- side condition on an extension function allowed in the fragment: the values it returns survive
     `Value.toExpr` (trivially so for the functions returning Booleans / longs; for the constructors `decimal`, `ip`,
     `datetime`, `duration`, `offset`, … this is the print/parse round trip of the canonical rendering — Rust keeps the
     original constructor call instead) -/
